@@ -9,6 +9,7 @@ CONSTANTS
   IdsIdentifyContent = FALSE
   IncOf <- ZeroInc
   StatusInc = 0
+  SearchOnlyWhenEmpty = FALSE
   HostSpellsOddly = FALSE
   FetchCanonicalises = FALSE
   PrunesOnStart = FALSE
